@@ -791,9 +791,14 @@ pub fn maps_has(code: &str) -> (r: bool)
     ensures r == maps_lookup(code@).is_some(),
 { unimplemented!() }
 #[verifier::external_body]
-pub fn maps_get(code: &str) -> (r: [char; 256])
-    requires maps_lookup(code@).is_some(),
-    ensures r == maps_lookup(code@).unwrap(),
+pub fn maps_get_opt(code: &str) -> (r: Option<&'static [char; 256]>)
+    ensures
+        r.is_some() == maps_lookup(code@).is_some(),
+        r.is_some() ==> *r.unwrap() == maps_lookup(code@).unwrap(),
+{ unimplemented!() }
+#[verifier::external_body]
+pub fn lat1_ref() -> (r: &'static [char; 256])
+    ensures *r == lat1_map(),
 { unimplemented!() }
 #[verifier::external_body]
 pub fn strs_eq(a: &str, b: &str) -> (r: bool)
